@@ -37,28 +37,28 @@ CLAIMED = {
     "C09": (
         "proof",
         "Day/week addition (incl. the +-300-day fast path), year addition, month addition and units_between are verified once against the calendar interface contract with a symbolic calendar; _add_months/_set_year/_months_between are verified per calculator class (15 regular calculators + Badi, symbolic year/month/day/amount, incl. the do-not-refactor negative branch); Period.between laws (only requested units, lands between start and end, reaches end with days/nanoseconds, one sign, maximal single unit) for dates (all 15 unit subsets), times (all 63 subsets) and year-months; LocalDateTime +/- Period.",
-        "Trusted: A1-A3. Period.between for LocalDateTime is under contract for 11 unit sets (exact/maximal in fixed-length units, one sign, only requested units). Not yet under contract: Hebrew _add_months/_months_between (loops / float first guess; a genuine defect there was repaired with a fix: commit and checked against a brute-force spec on 6,000 pairs), Period.normalize/to_duration. Interface axiom AX-MB (months_between lands between) is proved per class for the regular calculators only.",
+        "Trusted: A1-A3. Period.between for LocalDateTime is under contract for 11 unit sets (exact/maximal in fixed-length units, one sign, only requested units). Period.normalize (parts) and to_duration are under contract. Not yet under contract: Hebrew _add_months/_months_between (loops / float first guess; a genuine defect there was repaired with a fix: commit and checked against a brute-force spec on 6,000 pairs). Interface axiom AX-MB (months_between lands between) is proved per class for the regular calculators only.",
         "contract-based deductive verification: symbolic execution to VCs against the calendar interface contract; modular use of proved field contracts",
         "DESIGN.md §4 C09",
     ),
     "C16": (
         "proof",
         "All week-year rules at once (min_days 1..7, first day 1..7, regular/irregular as symbolic parameters) over a symbolic calendar: week-year start follows the rule's definition, regular week-years tile the day line, (week-year, week, weekday) converts back to the date, week number within the week count and advancing every 7 days; ISO rule == ISO 8601 (lemma); next/previous weekday; n-th weekday of month. Stand-in: ISO rule vs isocalendar.",
-        "Trusted: A1-A3, CAL axioms (per-class obligations of C01). Dates in the first/last two years of a calendar's range are excluded from the round-trip lemma (data dependent range ends; Badi year 0 is a known finding). DateAdjusters and LocalDateTime.next/previous not yet under contract.",
+        "Trusted: A1-A3, CAL axioms (per-class obligations of C01). Dates in the first/last two years of a calendar's range are excluded from the round-trip lemma (data dependent range ends; Badi year 0 is a known finding). DateAdjusters and LocalDateTime.next/previous are under contract over the same symbolic calendar.",
         "contract-based deductive verification: symbolic rule parameters and symbolic calendar, modular method contracts + round-trip lemma",
         "DESIGN.md §4 C16",
     ),
     "C18": (
         "proof",
         "DateInterval (construction, len, membership, inclusion, intersection, union, iteration with loop invariant and per-yield obligation) against the set {dse(start)..dse(end)} over a symbolic calendar; Interval against the half-open instant set incl. unbounded ends.",
-        "Trusted: A1-A3, CAL axioms. YearMonth.to_date_interval not yet under contract.",
+        "Trusted: A1-A3, CAL axioms. YearMonth.to_date_interval is under contract (first to last day of the month).",
         "contract-based deductive verification: symbolic execution to VCs against abstract views (sets of day numbers / instants)",
         "DESIGN.md §4 C18",
     ),
     "C19": (
         "other",
         "FakeClock: every method is verified against the model (now, auto_advance) with post-state contracts, frame conditions, ghost lock state (every operation completes: no re-acquisition of the non-reentrant lock) and lock discipline (state only touched while the lock is held). Interleavings are NOT explored: under assumption A9 (mutual exclusion) each method is one critical section, so concurrent histories are equivalent to sequential ones; that is an argument from an assumption, not a proof about schedules.",
-        "Trusted: A1-A3, A9 (threading.Lock semantics), A12. ZonedClock and SystemClock are not yet under contract. The schedule quantifier of the property is outside this family (no thread model).",
+        "Trusted: A1-A3, A9 (threading.Lock semantics), A12. ZonedClock (constructor, current instant and its four views, with calendar and ISO ghosts) and SystemClock (over a ghost time source) are under contract. The schedule quantifier of the property is outside this family (no thread model).",
         "contract-based deductive verification of the sequential model with ghost lock state; schedules by stated assumption only",
         "DESIGN.md §4 C19",
     ),
@@ -66,41 +66,41 @@ CLAIMED = {
     "C11": (
         "proof",
         "OffsetTime/OffsetDate/OffsetDateTime construction, accessors, with_offset (same instant, day carry in both directions), to_instant/in_fixed_zone round-trips, +/- Duration with the calendar preserved, comparers and the packed nanosecond-of-day/offset word are symbolically executed from the real source against the view (local day, nanosecond of day, offset seconds, calendar); all VCs discharged for all inputs over a symbolic calendar.",
-        "Trusted: A1-A4, CAL axioms (C01 per-class obligations). ZonedDateTime is covered by C05's stand-in only.",
+        "Trusted: A1-A4, CAL axioms (C01 per-class obligations). ZonedDateTime (construction, local parts, +/- Duration, with_zone, to_offset_date_time) is under contract over an ABSTRACT zone (uninterpreted offset function ZOFF within +-18 h); real zones enter through C04/C05.",
         "contract-based deductive verification: AST symbolic execution of the real functions to VCs, discharged by z3/cvc5",
         "DESIGN.md §4 C11",
     ),
     "C12": (
         "proof",
         "Equality/ordering/hash laws of the value types (Duration, Instant, Offset, LocalTime, LocalDate, LocalDateTime, YearMonth, OffsetTime, OffsetDateTime, Period, Interval, DateInterval): == is exactly equality of the abstract view, != its negation, <,<=,>,>= the order of the view (raising on calendar mismatch as documented), hash a function of the view, comparison with foreign types NotImplemented; proved from the real dunder bodies for all inputs.",
-        "Trusted: A1-A3, CAL axioms; hash() of a tuple of equal components is equal (Python semantics). Not yet under contract: ZoneInterval, AnnualDate, OffsetDate, ZonedDateTime, fixed zone equality.",
+        "Trusted: A1-A3, CAL axioms; hash() of a tuple of equal components is equal (Python semantics). AnnualDate, OffsetDate, ZoneInterval and the ordering operators are under contract too. Not yet under contract: ZonedDateTime equality, fixed zone equality.",
         "contract-based deductive verification: AST symbolic execution to VCs against abstract views",
         "DESIGN.md §4 C12",
     ),
     "C13": (
         "other",
         "Cache transparency as a contract over ARBITRARY cache states: _YearStartCacheEntry validation/packing, _YearMonthDayCalculator._get_start_of_year_in_days and the Hebrew calculator's two caches return the uncached computation for every cache content satisfying the representation invariant 'every valid entry stores the computed value of its own key' (and re-establish the invariant), so no history of earlier calls can change a result. Thread schedules are outside this family: entries are single immutable ints/objects written by one store (argument from an assumption about CPython's atomic list item store, not a proof).",
-        "Trusted: A1-A3, A10 (atomic list-item stores under the GIL). Not yet under contract: zone-interval hash cache, generic _Cache, DateTimeZoneCache, calendar singletons.",
+        "Trusted: A1-A3, A10 (atomic list-item stores under the GIL). Also under contract: the calendar registry (THE calendar of an id from every registry state, all factories) and _PyodaFormatInfo lookups (writable culture: new object, nothing pre-existing written). BOUNDED STAND-IN (not counted): every history of up to 6 lookups over 4 keys for the generic _Cache (sizes 1..3), colliding shuffled histories against the 512-slot zone-interval cache vs the wrapped zone, repeated provider lookups, pattern/format-info lookups on cultures modified between lookups vs a history-free evaluation.",
         "contract-based deductive verification with a representation invariant over arbitrary cache contents; schedules by stated assumption only",
         "DESIGN.md §4 C13",
     ),
     "C14": (
         "other",
         "Writer/reader pairs of the .nzd primitives (count, signed count, milliseconds in all four encodings, offset, zone-interval transition in all encodings, byte/int32/int64, ZoneYearOffset flags) are symbolically executed back to back over a token-level stream model: read(write(v)) == v for every v the writer accepts, the writer rejects exactly the out-of-range values, and the reader consumes exactly what the writer produced. Stand-in (bounded, not counted): all 724 real zones re-encoded byte-identically.",
-        "Trusted: A1-A4, A11 (byte-level stream abstraction: one token per written byte group; struct.pack/unpack and bytes methods modelled, not verified). Strings, dictionaries, ZoneRecurrence, the alternating map and the precalculated zone are covered by the stand-in only.",
+        "Trusted: A1-A4, A11 (byte-level stream abstraction: one token per written byte group; struct.pack/unpack and bytes methods modelled, not verified). ZoneRecurrence and the alternating map have codec contracts too (known finding: a recurrence with from_year <= 0 is not representable); strings, dictionaries and the precalculated zone are covered by the stand-in only.",
         "contract-based deductive verification of the real codec primitives over a symbolic stream; bounded stand-in for composite records",
         "DESIGN.md §4 C14",
     ),
     "C20": (
         "other",
         "Every reader primitive under contract over an ARBITRARY stream (unknown content, ghost count of remaining bytes): it terminates, and either returns a value within its documented range or raises only InvalidPyodaDataError (EOF included); varint loop bounded by loop variant; boundary contract: _TzdbStreamData._from_stream/create_zone convert the data-error family into InvalidPyodaDataError. Stand-in (bounded, not counted): truncation at every prefix class and seeded single-byte corruptions of both real files.",
-        "Trusted: A1-A3, A11. The composite readers between the primitives and the boundary (zone, recurrence, field framing) are covered by the sweep only. A genuine defect (struct.error/ValueError/LookupError/OverflowError escaping) was repaired with a fix: commit.",
+        "Trusted: A1-A3, A11. read_zone_interval_transition is under contract on any stream (plus a bit-exact variant over streams of at most 5 bytes whose counter-models are real byte strings replayed on the reader); _TzdbStreamData.__init__ rejects a stream lacking a required field; create_zone and _from_stream are boundary contracts over arbitrary inner failures. The other composite readers (recurrence, precalculated zone, field framing) are covered by the sweep only. A genuine defect (struct.error/ValueError/LookupError/OverflowError escaping) was repaired with a fix: commit.",
         "contract-based deductive verification of reader primitives over arbitrary streams; bounded fault sweep as stand-in",
         "DESIGN.md §4 C20",
     ),
     "C04": (
         "other",
-        "Deductive (all inputs): _PrecalculatedDateTimeZone.get_zone_interval -- binary search over a period list of SYMBOLIC length with inductive loop invariant and variant (for any number of periods satisfying the class invariant: returns the one period containing the instant, never 'instant did not exist'), and the hand-off to the tail map with the clamped first tail interval; _validate_periods establishes exactly that class invariant for ANY list (for-loop invariant over an arbitrary ghost index); __compute_offset bounds the wall offset of EVERY period; _ZoneRecurrence._next / _previous_or_same return the occurrence of the least / greatest year of the recurrence on the right side of the instant (modular over the rule contract OCC + YEAR-LOCAL, arbitrary ghost year, recurrence years within -9000..9000 or unbounded); _StandardDaylightAlternatingMap.get_zone_interval over the recurrence contracts (contains the instant, ends at the earlier next transition, belongs to the other recurrence, wall = standard + savings); the yearly rule equals plain calendar arithmetic for every stored rule x every year 1..9999 (479,952 ground obligations; every conceivable rule symbolically in the thorough tier). BOUNDED STAND-IN for the composition (that the real zones' rule pairs alternate, the caching wrapper, fixed zones, and the end-to-end statement 'intervals abut and are maximal'): every zone id of both real files walked through the public API (quick: first 260 intervals per zone + the last ~40; thorough: complete, the configuration is finite).",
+        "Deductive (all inputs): _PrecalculatedDateTimeZone.get_zone_interval -- binary search over a period list of SYMBOLIC length with inductive loop invariant and variant (for any number of periods satisfying the class invariant: returns the one period containing the instant, never 'instant did not exist'), and the hand-off to the tail map with the clamped first tail interval; _validate_periods establishes exactly that class invariant for ANY list (for-loop invariant over an arbitrary ghost index); __compute_offset bounds the wall offset of EVERY period; _ZoneRecurrence._next / _previous_or_same return the occurrence of the least / greatest year of the recurrence on the right side of the instant (modular over the rule contract OCC + YEAR-LOCAL, arbitrary ghost year, recurrence years within -9997..9998 or unbounded, stepping into the last years -9998 / 9999 included); _StandardDaylightAlternatingMap.get_zone_interval over the recurrence contracts (contains the instant, ends at the earlier next transition, belongs to the other recurrence, wall = standard + savings); the yearly rule equals plain calendar arithmetic for every stored rule x every year 1..9999 (479,952 ground obligations; every conceivable rule symbolically in the thorough tier). BOUNDED STAND-IN for the composition (that the real zones' rule pairs alternate, the caching wrapper, fixed zones, and the end-to-end statement 'intervals abut and are maximal'): every zone id of both real files walked through the public API (quick: first 260 intervals per zone + the last ~40; thorough: complete, the configuration is finite).",
         "Trusted: A1-A4, CAL axioms; interface facts of the modular steps: YEAR-LOCAL for rules (a rule's occurrence of year y lies in year y: discharged as ground obligations for every stored rule x year) and the assumption PARTITION for the tail map (the interval of any instant inside an interval is that interval); the period list is abstracted by uninterpreted functions of the index whose class invariant is instantiated at the index terms of each obligation. The caching map and 'adjacent intervals differ' are covered by the walk only.",
         "contract-based deductive verification with loop invariants over a symbolic-length sequence and modular interface contracts; ground case split over the stored rules; bounded run-time contract checking for the composition",
         "DESIGN.md §4 C04, §10",
@@ -114,7 +114,7 @@ CLAIMED = {
     ),
     "C06": (
         "other",
-        "Deductive: every yearly rule stored in the two database files x every year 1..9999 evaluates to what plain calendar arithmetic (datetime.date) gives (479,952 ground obligations; the rules come from an independent decoder of the file bytes); reader primitives under C14/C20. BOUNDED STAND-IN for the rest: an independent decoder of the .nzd bytes and an independent evaluator of the yearly rules are compared with the zones the real source serves: every stored period (start, end, name, wall offset, savings), every rule-generated tail transition (quick: first 14 + last 4 years; thorough: through year 9999, i.e. the property's whole finite domain), id list == sorted(canonical + aliases), aliases, fixed-offset ids, validate(), version.",
+        "Deductive: every yearly rule stored in the two database files x every year 1..9999 evaluates to what plain calendar arithmetic (datetime.date) gives (479,952 ground obligations; the rules come from an independent decoder of the file bytes); reader primitives under C14/C20 (has_more_data: true iff a byte is left, whatever its value). BOUNDED STAND-IN for the rest: an independent decoder of the .nzd bytes and an independent evaluator of the yearly rules are compared with the zones the real source serves: every stored period (start, end, name, wall offset, savings), every rule-generated tail transition (quick: first 14 + last 4 years; thorough: through year 9999, i.e. the property's whole finite domain), id list == sorted(canonical + aliases), aliases, fixed-offset ids, validate(), version.",
         "Trusted: specs/nzd.py is my reading of the format notes.",
         "ground case split over the stored rules (identity-checked real function vs independent arithmetic); bounded differential check against an independent interpretation",
         "DESIGN.md §4 C06, §10",
@@ -137,15 +137,15 @@ CLAIMED = {
     ),
     "C07": (
         "other",
-        "Deductive, for all values: parse(format(v)) == v (to the resolution of the pattern's fields) for the built-in patterns of C17 and for a stated finite family of custom patterns (10 LocalTime, 8 LocalDate, 6 Offset pattern texts incl. quoted/escaped literals, padded/unpadded numerics, f/F fractions, 12-hour clock with am/pm, text months and day names), plus re-format idempotence on ANY successfully parsed text of given lengths for three delimited patterns; all rendering/scanning primitives for all integers/texts. NOT for all pattern texts and only the invariant culture (no ICU in this sandbox): the rest of the quantifier is covered by a bounded stand-in (generated patterns x values), hence level other.",
-        "Trusted: A1-A4, A10, CAL axioms. Known finding: texts denoting negative zero re-format without the sign. Era fields, embedded patterns, calendars other than ISO, Duration patterns (path explosion in the total-field scanner) and every culture but the invariant one are covered by the stand-in only. Four genuine defects were repaired with fix: commits.",
+        "Deductive, for all values: parse(format(v)) == v (to the resolution of the pattern's fields) for the built-in patterns of C17 and for a stated finite family of custom patterns (10 LocalTime, 8 LocalDate, 6 Offset, 5 Duration pattern texts incl. quoted/escaped literals, padded/unpadded numerics, f/F fractions, 12-hour clock with am/pm, text months and day names), plus re-format idempotence on ANY successfully parsed text of given lengths for three delimited patterns; all rendering/scanning primitives for all integers/texts. NOT for all pattern texts and only the invariant culture (no ICU in this sandbox): the rest of the quantifier is covered by a bounded stand-in (generated patterns x values), hence level other.",
+        "Trusted: A1-A4, A10, CAL axioms. Known finding: texts denoting negative zero re-format without the sign. Duration patterns are under contract for five pattern texts (D/H/M total fields, hh:mm:ss partial fields, nine fixed fraction digits; the variable-width F fraction of the round-trip pattern explodes into > 60,000 paths and stays with the stand-in). Era fields, embedded patterns, calendars other than ISO and every culture but the invariant one are covered by the stand-in only. Four genuine defects were repaired with fix: commits.",
         "contract-based deductive verification per pattern text (symbolic values, symbolic-character strings) + bounded generated-pattern stand-in",
         "DESIGN.md §4 C07",
     ),
     "C08": (
         "other",
         "Deductive: for three built-in patterns and one custom pattern, parse of ANY text of the stated lengths (every character unknown, any code point) returns a result object and never raises, and a success carries a valid value; the scanners (_parse_digits, _parse_fraction, _parse_int64) never raise on any text of lengths 0..5. Bounded in text length and in the set of patterns; pattern creation (only InvalidPatternError) is covered by the stand-in only (generated and mutated pattern texts, malformed ones included; valid, mutated, truncated, out-of-range, non-ASCII and NUL-containing inputs).",
-        "Trusted: A1-A4, A10. Three genuine defects (offset hours 19-23 raising, year -9999 raising / invalid value, double-quoted literal raising NotImplementedError) were repaired with fix: commits.",
+        "Trusted: A1-A4, A10 (str.isdigit / isdecimal / int of one character are modelled by the interpreter's own Unicode tables, so 'digit' in the scanners means exactly what CPython means). Three genuine defects (offset hours 19-23 raising, year -9999 raising / invalid value, double-quoted literal raising NotImplementedError) were repaired with fix: commits.",
         "contract-based deductive verification over texts of unknown characters (bounded length) + bounded fuzz stand-in",
         "DESIGN.md §4 C08",
     ),
